@@ -128,7 +128,7 @@ pub fn fx18_program(curve: Curve, idx: usize) -> Program {
         }
         ops.push(Op::Closure(body));
     }
-    Program { curve, tlabel: (idx % 3) as u8, pre: if idx % 4 == 2 { vec![(0, vec![7, 7])] } else { vec![] }, ops, owned: false, cap_p: Cap::Exact, cap_v: Cap::Exact, party_cap: 1, seed: 1800 + idx as u64, pc: 0 }
+    Program { curve, tlabel: (idx % 3) as u8, pre: if idx % 4 == 2 { vec![(0, vec![7, 7])] } else { vec![] }, ops, owned: false, cap_p: Cap::Exact, cap_v: Cap::Exact, party_cap: 1, seed: 1800 + idx as u64, pc: 0, gens: 0 }
 }
 
 pub const FX_COUNT: usize = 33;
